@@ -337,7 +337,7 @@ impl Prop for C18Prop {
     fn runs(&self, tier: Tier) -> u64 {
         match tier {
             Tier::Quick => 300_000,
-            Tier::Thorough => 4_000_000,
+            Tier::Thorough => 12_000_000,
         }
     }
     fn rule(&self) -> &'static str {
